@@ -132,9 +132,14 @@ def _check_text(ctx, text, m, fract):
     if it.get("_symmetry_space_group_name_h-m") not in ("P 1", "P1"):
         bad("file-spacegroup", "space group name written as %r" % it.get("_symmetry_space_group_name_h-m"))
     want = cellpar(m.cell)
-    for key, w, tol in zip(["_cell_length_a", "_cell_length_b", "_cell_length_c", "_cell_angle_alpha", "_cell_angle_beta", "_cell_angle_gamma"], want,
-                           [1e-9, 1e-9, 1e-9, 5.1e-5, 5.1e-5, 5.1e-5]):
-        if key not in it or abs(float(it[key]) - w) > tol * max(1.0, abs(w)):
+    prec = {"cell": []}
+    for key, w in zip(["_cell_length_a", "_cell_length_b", "_cell_length_c", "_cell_angle_alpha", "_cell_angle_beta", "_cell_angle_gamma"], want):
+        if key not in it:
+            bad("file-cell", "%s missing" % key)
+        # printed precision is read off the token; values printed with >= 9 significant decimals are compared relatively
+        tol = max(readers.half_unit(readers.decimals(it[key])), 1e-9 * max(1.0, abs(w)))
+        prec["cell"].append(tol)
+        if abs(float(it[key]) - w) > tol:
             bad("file-cell", "%s written as %r, structure has %.6f" % (key, it.get(key), w))
     loop = next((l for l in d["loops"] if "_atom_site_type_symbol" in l), None)
     if loop is None:
@@ -151,7 +156,8 @@ def _check_text(ctx, text, m, fract):
         bad("file-coordinates", "coordinate columns %s missing (have %s)" % (tags, sorted(loop)))
     got = np.array([[float(loop[t][i]) for t in tags] for i in range(n)]).reshape(-1, 3)
     wantc = pos @ np.linalg.inv(np.array(m.cell, float)) if fract else pos
-    if n and np.abs(got - wantc).max() > 0.51e-4:
+    prec["coord"] = readers.half_unit(min([readers.decimals(loop[t][i]) for t in tags for i in range(n)] or [4]))
+    if n and np.abs(got - wantc).max() > prec["coord"]:
         i = int(np.argmax(np.abs(got - wantc).max(axis=1)))
         bad("file-coordinates", "atom %d written at %s, structure has %s" % (i, got[i].tolist(), wantc[i].tolist()))
     for i, a in enumerate(m.atoms):
@@ -180,9 +186,11 @@ def _check_text(ctx, text, m, fract):
             for lab, v in t.extras.items():
                 if loop.get(lab.lower(), [None] * len(rows))[r] != v:
                     bad("file-%s-extra" % kind, "%s %d column %s written as %r, structure has %r" % (kind, r, lab, loop.get(lab.lower(), [None] * len(rows))[r], v))
+    return prec
 
 
-def _check_reload(ctx, re_, m, fract, where):
+def _check_reload(ctx, re_, m, fract, where, prec=None):
+    prec = prec or {"coord": 0.51e-4, "cell": [1e-9, 1e-9, 1e-9, 5.1e-5, 5.1e-5, 5.1e-5]}
     def bad(cls, msg):
         raise Violation("c15:%s" % cls, "%s (%s)" % (msg, where), site="load_p1_cif")
     refmodel.structural_invariants(re_, where)
@@ -194,21 +202,21 @@ def _check_reload(ctx, re_, m, fract, where):
     if re_.cell is None:
         bad("cell", "no cell read back")
     got, want = cellpar(re_.cell), cellpar(m.cell)
-    for g, w, tol in zip(got, want, [1e-9, 1e-9, 1e-9, 1.1e-4, 1.1e-4, 1.1e-4]):
-        if abs(g - w) > tol * max(1.0, abs(w)):
+    for g, w, tol in zip(got, want, prec["cell"]):
+        if abs(g - w) > 2.2 * max(tol, 1e-9 * max(1.0, abs(w))):
             bad("cell", "cell parameters read back %s, structure has %s" % (got, want))
     pos = np.array([a.pos for a in m.atoms]).reshape(-1, 3)
     rp = np.asarray(re_.positions, float).reshape(-1, 3)
     if fract:
         f0 = pos @ np.linalg.inv(np.array(m.cell, float))
         f1 = rp @ np.linalg.inv(np.array(re_.cell, float))
-        if n and circ(f0, f1).max() > 0.52e-4:
+        if n and circ(f0, f1).max() > prec["coord"] * 1.02:
             i = int(np.argmax(circ(f0, f1).max(axis=1)))
             bad("fractional-coordinates", "atom %d read back at fractional %s, structure has %s (modulo 1)" % (i, f1[i].tolist(), f0[i].tolist()))
         if n and (f1.min() < -1e-9 or f1.max() > 1 + 1e-9):
             bad("not-wrapped", "fractional coordinates after reading are outside [0,1]: min %.6g max %.6g" % (f1.min(), f1.max()))
     else:
-        if n and np.abs(rp - pos).max() > 0.51e-4:
+        if n and np.abs(rp - pos).max() > prec["coord"]:
             bad("cartesian-coordinates", "positions read back differ from the structure by %.3g" % np.abs(rp - pos).max())
     for i, a in enumerate(m.atoms):
         if abs(float(re_.charges[i]) - a.charge) > 1e-12:
@@ -361,9 +369,9 @@ def execute(spec, ctx):
     t1, p1 = _save(ctx, fs, real, case["via_save"], "t1", fract)
     if replcheck.snapshot(real) != before:
         raise Violation("c15:save-modified-object", "writing a CIF modified the in-memory structure", site="save_p1_cif")
-    _check_text(ctx, t1, m, fract)
+    prec = _check_text(ctx, t1, m, fract)
     re1 = _load(ctx, fs, p1, case["via_load"], case.get("read_script"))
-    _check_reload(ctx, re1, m, fract, "reload of first write, %s coordinates" % ("fractional" if fract else "cartesian"))
+    _check_reload(ctx, re1, m, fract, "reload of first write, %s coordinates" % ("fractional" if fract else "cartesian"), prec)
     ctx.count("cif_roundtrips")
     c = np.array(m.cell, float)
     if not np.allclose(c, np.diag(np.diag(c))):
